@@ -150,7 +150,7 @@ def work_sequences(task):
                                           {'phi': x, 'sequence': [[o[0], o[1]] for o in seq]})
                             break
                     else:
-                        acc.n['nontrivial'] += 1
+                        acc.n['op_sequences_ok'] += 1
     return acc
 
 
